@@ -200,6 +200,19 @@ CHECKS = {
                 "hemisphere preservation and pi - angle mirror at boundaries (R18e).",
         "note": "Not decided: equivalence of a split medium with the unsplit one, unit transmission, bracketing on the 91-angle grid.",
     },
+    "C01": {
+        "technique": "static analysis: syntactic differentiation with sqrt relations (antiderivative check), def-use pairing of trapezoid calls, clone comparison of Snell conversions, bracket rules",
+        "text": "R01d proves in exact algebra that d/dz of each closed form returned by _distance_integral, _pathlen_integral and "
+                "_tof_integral (general and beta~0 arms, with _int_terms inlined, modulo gamma = n^2-beta^2, alpha = n0^2-beta^2, n' = -ak e^{az}) "
+                "equals beta/sqrt(gamma), n/sqrt(gamma), n^2/(c sqrt(gamma)) -- i.e. the reported radial distance, path length and time of flight "
+                "are the line integrals of a ray with invariant n sin(theta) = beta, for every z, beta and ice parameters; deep arms equal the "
+                "n == n0 integrand. R01a pairs all 7 trapezoid calls with the step/abscissa of the linspace they sample; R01b integrand relations "
+                "(tof = pathlen * n/c, attenuation = pathlen / L_att); R01c the Snell conversions are one normal form, beta = n0 sin(theta0), "
+                "z_turn = depth_with_index(beta); R01e direct flag only on the first solution, vertical flip for turned-over paths, root brackets.",
+        "note": "Not decided: accuracy of the trapezoid rule for a given dz, brentq convergence / bracket validity, _z_int_uniform_correction piecing, "
+                "_distance_integral_derivative (FIXME in source), deep tof (deliberate approximation), peak_angle. Trusted: the module's "
+                "rational-function normal form and calculus rules.",
+    },
 }
 
 _TODO = "check not built yet in this session (see DESIGN.md section 3 for the planned rules)"
